@@ -43,24 +43,27 @@ func NewFileStorage(dir string) (Storage, error) {
 // previous or the new one, even if the process is killed while writing.
 func (f *fileStorage) Set(key string, value []byte) error {
 	path := f.filePathToFile(key)
-	tmpPath := path + tempFileSuffix
 
-	file, err := f.fileForWrite(tmpPath)
+	file, err := f.tempFileForWrite()
 	if err != nil {
 		return err
 	}
+	tmpPath := file.Name()
 
 	_, err = file.Write(value)
 	if cerr := file.Close(); err == nil {
 		err = cerr
 	}
 
-	if err != nil {
-		os.Remove(tmpPath)
-		return err
+	if err == nil {
+		err = os.Rename(tmpPath, path)
 	}
 
-	return os.Rename(tmpPath, path)
+	if err != nil {
+		os.Remove(tmpPath)
+	}
+
+	return err
 }
 
 // Get returns the value for a specific key.
@@ -116,8 +119,19 @@ func (f *fileStorage) filePathToFile(file string) string {
 	return filepath.Join(f.dir(), fname)
 }
 
-func (f *fileStorage) fileForWrite(path string) (*os.File, error) {
-	return os.OpenFile(path, os.O_WRONLY|os.O_CREATE|os.O_TRUNC, 0666)
+// tempFileForWrite creates a temporary file in the storage directory. The file
+// has a name of its own and is created exclusively: it is neither the file of
+// a key nor the temporary file of another writer.
+func (f *fileStorage) tempFileForWrite() (*os.File, error) {
+	for {
+		name := filepath.Join(f.dir(), RandomHexString()+tempFileSuffix)
+		file, err := os.OpenFile(name, os.O_WRONLY|os.O_CREATE|os.O_EXCL, 0666)
+		if os.IsExist(err) {
+			continue
+		}
+
+		return file, err
+	}
 }
 
 func (f *fileStorage) fileForRead(key string) (*os.File, error) {
